@@ -140,6 +140,10 @@ def is_sequence(string):
 
 
 def remove_constructed(string):
+    if not string:
+        raise UnexpectedDER(
+            "Empty string does not encode a constructed tag"
+        )
     s0 = str_idx_as_int(string, 0)
     if (s0 & 0xE0) != 0xA0:
         raise UnexpectedDER(
